@@ -172,6 +172,8 @@ def fresh_db(path: str | None = None) -> str:
         pass
     _dispose_cached_db()
     raydouble.reset_store()
+    if "_noise_state" in globals():
+        _noise_state["calls"] = {}  # per-call noise counters start afresh with every scenario
     url = "sqlite://" if path is None else f"sqlite:///{path}"
     setDBPath(url)
     return url
@@ -215,7 +217,7 @@ def raw_sql(sql: str, params=()):
 _noise_state = {"installed": False, "scale": 1.0, "salt": 0, "orig": None}
 
 
-def install_keyed_noise(scale: float = 1.0, salt: int = 0):
+def install_keyed_noise(scale: float = 1.0, salt: int = 0, per_call: bool = False):
     """Replace the simulator's measurement-noise draw (NumPy *global* RNG, i.e. dependent on execution
     order and process) by a pure function of (sensor state, target state, epoch, salt): the same
     N(0, R) distribution, but results become a function of the case only.  ``scale=0`` switches noise off.
@@ -226,6 +228,11 @@ def install_keyed_noise(scale: float = 1.0, salt: int = 0):
 
     _noise_state["scale"] = float(scale)
     _noise_state["salt"] = int(salt)
+    # per_call: the n-th draw for the same (sensor state, target state, epoch) gets its own noise, as with a real random
+    # generator (two measurements of one pair at one epoch then differ); still a pure function of the case as long as the
+    # order of the draws is (i.e. without schedule permutations)
+    _noise_state["per_call"] = bool(per_call)
+    _noise_state["calls"] = {}
     if _noise_state["installed"]:
         return
     orig = meas.Measurement.calculateMeasurement
@@ -240,6 +247,11 @@ def install_keyed_noise(scale: float = 1.0, salt: int = 0):
         h.update(np.ascontiguousarray(tgt_eci_state, dtype=float).tobytes())
         h.update(utc_date.isoformat().encode())
         h.update(str(_noise_state["salt"]).encode())
+        if _noise_state.get("per_call"):
+            key = h.hexdigest()
+            nth = _noise_state["calls"].get(key, 0)
+            _noise_state["calls"][key] = nth + 1
+            h.update(str(nth).encode())
         rng = np.random.default_rng(int.from_bytes(h.digest()[:8], "big"))
         z = rng.standard_normal(self._r_matrix.shape[0])
         noise = _noise_state["scale"] * (self._sqrt_noise_covar @ z)
